@@ -46,6 +46,13 @@ func (sm *storedMessages) add(msg *IncMessage) {
 	}
 }
 
+func (sm *storedMessages) lastUse() time.Time {
+	sm.lock.RLock()
+	defer sm.lock.RUnlock()
+
+	return sm.lastUsed
+}
+
 func (sm *storedMessages) senders() []uint16 {
 	sm.lock.RLock()
 	defer sm.lock.RUnlock()
@@ -243,7 +250,7 @@ func (b *Box) mark(now uint64, epochsAfterWhichWeGC time.Duration) []string {
 	defer b.lock.RUnlock()
 
 	for topic, messages := range b.pendingMessages {
-		if float64(messages.lastUsed.Unix())+b.GCExpire.Seconds() < float64(now) {
+		if float64(messages.lastUse().Unix())+b.GCExpire.Seconds() < float64(now) {
 			topics2Delete = append(topics2Delete, topic)
 		}
 	}
